@@ -10,6 +10,7 @@ import ConfModel.Lemmas.RawBody
 import ConfModel.Lemmas.RawMerge
 import ConfModel.Lemmas.RawSeq
 import ConfModel.Lemmas.RawStack
+import ConfModel.Lemmas.RawRace
 import ConfModel.Spec.RawStack
 import ConfModel.Spec.RawSeq
 import ConfModel.Model.RawRetry
@@ -540,5 +541,99 @@ example :
     seen.map (fun s => get s.headers "X-Old") = [[], [], [], []] := by decide
 
 end Stack
+
+/-! ## Two goroutines arbitrating one rawResponseWriter
+
+The handler goroutine starts the normal response while another goroutine calls `setRawResponse`.
+The atomic steps are the critical sections under `r.mu`, as the code has them: `canSendResponse`
+decides AND marks in one (`RawBody.canSend`), `setRawResponse` is one. -/
+
+section Race
+open ConfModel.RawRace ConfModel.RawRaceSpec
+
+/-- **raw_xor_normal_concurrent.**  For every list of handler operations, every list of raw
+responses another goroutine records, and EVERY interleaving of the two goroutines' atomic steps, the
+outcome is pure: either the wire is exactly the handler's output and every `setRawResponse` was
+refused, or the wire is exactly the last raw response recorded, every `setRawResponse` was accepted
+and every handler operation swallowed. -/
+theorem raw_xor_normal_concurrent (hs : List Op) (rs : List Raw) (l : List Op)
+    (hh : ∀ o ∈ hs, isHandler o = true) (hi : Interleaving hs (rs.map .setRaw) l) :
+    allNormal (handlerEvents hs) (finish (mrun {} (l.map .op)).1.s) (mrun {} (l.map .op)).2 ∨
+    ∃ r, rs.getLast? = some r ∧ allRaw r (finish (mrun {} (l.map .op)).1.s) (mrun {} (l.map .op)).2 := by
+  have hm := mrun_ops {} l
+  have hx := raw_xor_normal l
+  rw [hm.1, hm.2]
+  have hr : ∀ o ∈ rs.map Op.setRaw, evOf o = none := by
+    intro o ho
+    obtain ⟨r, _, rfl⟩ := List.mem_map.mp ho
+    rfl
+  cases l with
+  | nil =>
+    left
+    have := handlerEvents_interleaving hi hr
+    refine ⟨?_, by simp [run]⟩
+    rw [← this]; simp [run, finish, handlerEvents]
+  | cons o t =>
+    by_cases ho : isHandler o = true
+    · left
+      refine ⟨?_, ?_⟩
+      · rw [hx.1, ← handlerEvents_interleaving hi hr]; simp [wireSpec, ho]
+      · rw [hx.2]; intro x hxm
+        simp only [resultsSpec, ho, if_true, List.mem_map] at hxm
+        obtain ⟨y, _, rfl⟩ := hxm
+        cases isHandler y <;> simp
+    · right
+      have hl : lastRaw (o :: t) = rs.getLast? := by
+        rw [lastRaw_interleaving hi hh, lastRaw_setRaws]
+      cases o with
+      | setRaw r0 =>
+        have hsome : ∃ r, lastRaw (Op.setRaw r0 :: t) = some r := by
+          simp only [lastRaw]; cases lastRaw t <;> simp
+        obtain ⟨r, hr'⟩ := hsome
+        have hno : isHandler (Op.setRaw r0) = false := rfl
+        refine ⟨r, by rw [← hl, hr'], ?_, ?_⟩
+        · rw [hx.1]; simp only [wireSpec, hno, Bool.false_eq_true, if_false, hr']
+        · rw [hx.2]; intro x hxm
+          simp only [resultsSpec, hno, Bool.false_eq_true, if_false, List.mem_map] at hxm
+          obtain ⟨y, _, rfl⟩ := hxm
+          cases isHandler y <;> simp
+      | write b => simp [isHandler, evOf] at ho
+      | writeHeader c => simp [isHandler, evOf] at ho
+      | flush => simp [isHandler, evOf] at ho
+
+/-- non-vacuity: both outcomes occur, depending on who takes the lock first -/
+example :
+    Interleaving [Op.writeHeader 201, .write [9]] ([(⟨418, [7]⟩ : Raw)].map .setRaw) [.writeHeader 201, .setRaw ⟨418, [7]⟩, .write [9]] ∧
+    finish (mrun {} ([Op.writeHeader 201, .setRaw ⟨418, [7]⟩, .write [9]].map .op)).1.s = [.header 201, .body [9]] ∧
+    (mrun {} ([Op.writeHeader 201, .setRaw ⟨418, [7]⟩, .write [9]].map .op)).2 = [.passed, .refused, .passed] ∧
+    Interleaving [Op.writeHeader 201, .write [9]] ([(⟨418, [7]⟩ : Raw)].map .setRaw) [.setRaw ⟨418, [7]⟩, .writeHeader 201, .write [9]] ∧
+    finish (mrun {} ([Op.setRaw ⟨418, [7]⟩, .writeHeader 201, .write [9]].map .op)).1.s = [.header 418, .body [7]] ∧
+    (mrun {} ([Op.setRaw ⟨418, [7]⟩, .writeHeader 201, .write [9]].map .op)).2 = [.accepted, .swallowed, .swallowed] :=
+  ⟨.left (.right (.left .nil)), by decide, by decide, .right (.left (.left .nil)), by decide, by decide⟩
+
+/-- **split_critical_section_mixes.**  Why `canSendResponse` must decide and mark in ONE critical
+section: if it asks `rawResponse()` first and marks in a second critical section (`splitOf`), the
+schedule check / setRawResponse / mark is an interleaving of the two goroutines' atomic steps in
+which the raw response is accepted although the handler's bytes go out - the wire carries the
+handler's body followed by the raw status and body: neither all-normal nor all-raw. -/
+theorem split_critical_section_mixes :
+    let sched : List Micro := [.check, .op (.setRaw ⟨418, [7]⟩), .mark (.body [9])]
+    Interleaving (splitOf (.body [9])) [Micro.op (.setRaw ⟨418, [7]⟩)] sched ∧
+    finish (mrun {} sched).1.s = [.body [9], .header 418, .body [7]] ∧
+    (mrun {} sched).2 = [.accepted, .passed] ∧
+    (mrun {} sched).1.s.started = true ∧ (mrun {} sched).1.s.raw.isSome = true ∧
+    ¬ allNormal [.body [9]] (finish (mrun {} sched).1.s) (mrun {} sched).2 ∧
+    ¬ allRaw ⟨418, [7]⟩ (finish (mrun {} sched).1.s) (mrun {} sched).2 := by
+  refine ⟨.left (.right (.left .nil)), by decide, by decide, by decide, by decide, ?_, ?_⟩
+  · intro h; exact absurd h.1 (by decide)
+  · intro h; exact absurd h.1 (by decide)
+
+/-- the split variant is sequentially indistinguishable from the code: with the two halves next to
+each other every order gives the code's outcome (here: both orders of one write and one raw response) -/
+example :
+    finish (mrun {} (splitOf (.body [9]) ++ [.op (.setRaw ⟨418, [7]⟩)])).1.s = finish (run {} [.write [9], .setRaw ⟨418, [7]⟩]).1 ∧
+    finish (mrun {} (.op (.setRaw ⟨418, [7]⟩) :: splitOf (.body [9]))).1.s = finish (run {} [.setRaw ⟨418, [7]⟩, .write [9]]).1 := by decide
+
+end Race
 
 end ConfModel.Props.C17
